@@ -25,9 +25,9 @@ CLAIMS = {
         "design_ref": "DESIGN.md §4 L0, §6 C04",
     },
 }
-PUSH_NOTE = ("Trusted: vstd's std model; std contracts in specs/05_std.vrs and 00_prelude.vrs; write!/writeln! stand-ins; derived Clone of PushProgram; "
-             "float/int `as` casts. Not yet under contract in this check: float and exec instruction families, PushInstruction/PushProgram dispatch, "
-             "run_to_completion loop, push_many (work in progress; the whole-program corollary is therefore not yet claimed).")
+PUSH_NOTE = ("Trusted (listed in every evidence file): vstd's std model; std contracts in specs/05_std.vrs and 00_prelude.vrs; write!/writeln! stand-ins; "
+             "derived Clone of PushProgram; float/int `as` casts; OrderedFloat operators as uninterpreted functions; external_body contracts for "
+             "PushState::with_input (HashMap lookup), Vec<PushProgram>::perform (block unfolding through push_many/Vec::extend) and the PrintChar aliases.")
 CLAIMS.update({
     "C01": {
         "category": "proof", "engine": "verus",
